@@ -13,7 +13,7 @@ LEVEL = "exploration"
 WORKERS = {"quick": 8, "thorough": 16}
 BUDGET = {"quick": 150, "thorough": 420}
 MIN_NONTRIVIAL = {"quick": 2000, "thorough": 30000}
-REQUIRED_HOOKS = ["evaluate:I", "evaluate:C", "direct", "IntType.__lt__", "IntType.__eq__", "ListType.__eq__", "MapType.__eq__", "MapType.__ne__", "DoubleType.__eq__", "UintType.__eq__"]
+REQUIRED_HOOKS = ["hetero-pair", "size-pair", "evaluate:I", "evaluate:C", "direct", "IntType.__lt__", "IntType.__eq__", "ListType.__eq__", "MapType.__eq__", "MapType.__ne__", "DoubleType.__eq__", "UintType.__eq__"]
 RULE = (
     "Pairs and triples of same-type values (int, uint, double without NaN, string, bytes, bool, timestamp, duration; lists and maps of those, nested to depth 2; null) "
     "drawn with high collision probability: equal-but-not-identical copies, neighbours (v+-1, one more character, a prefix), -0.0/0.0, the same instant written with "
@@ -368,6 +368,89 @@ def short(v):
     return repr(v)[:70]
 
 
+# ---------------------------------------------------------------- containers with elements of several types, long containers
+HSCALARS = [("int", 1), ("int", 2), ("string", "x"), ("string", "1"), ("bool", True), ("bool", False), ("null", None), ("uint", 1), ("uint", 2), ("double", 1.0), ("double", 2.5), ("bytes", b"x"), ("bytes", b"1")]
+
+
+def hetero_pairs(ck, rnd, n):
+    """Lists and maps are dynamically typed.  Two containers of the same CEL type that differ DEFINITELY somewhere (another length or
+    key set, or a position holding two unequal values of one type) are unequal whatever their other positions hold: a == b and b == a
+    must be false and a != b, b != a true, also when some other position pairs values of different types (whose own comparison is an
+    error that the definite difference absorbs).  Pairs without a definite difference are outside the statement and not judged."""
+    acc = ck.acc
+    for _ in range(n):
+        kind = rnd.choice(["list", "map"])
+        k = rnd.randint(2, 4)
+        if kind == "list":
+            av = [rnd.choice(HSCALARS) for _ in range(k)]
+            bv = [rnd.choice(HSCALARS) if rnd.random() < 0.6 else av[i] for i in range(k)]
+            if rnd.random() < 0.15:
+                bv = bv[:-1]
+            a, b = ("list", tuple(av)), ("list", tuple(bv))
+            pairs = list(zip(av, bv))
+            definite = len(av) != len(bv) or any(u[0] == v[0] and u[1] != v[1] for u, v in pairs)
+        else:
+            keys = [("string", c) for c in "abcd"[:k]]
+            av = {kk: rnd.choice(HSCALARS) for kk in keys}
+            kb = list(keys)
+            rnd.shuffle(kb)
+            bvm = {kk: (rnd.choice(HSCALARS) if rnd.random() < 0.6 else av[kk]) for kk in kb}
+            a, b = ("map", tuple(av.items())), ("map", tuple(bvm.items()))
+            pairs = [(av[kk], bvm[kk]) for kk in keys]
+            definite = any(u[0] == v[0] and u[1] != v[1] for u, v in pairs)
+        mixed = sum(1 for u, v in pairs if u[0] != v[0])
+        if not definite or mixed == 0:
+            continue
+        benv = MV.cel_env({"x": a, "y": b})
+        acc.hook("hetero-pair")
+        acc.nt(["hetero", MV.enc(a), MV.enc(b)])
+        for r in "IC":
+            got = []
+            for src in ("x == y", "x != y", "y == x", "y != x"):
+                o = core.eval_cached(r, src, benv)
+                acc.hook("evaluate:" + r)
+                acc.evaluations += 1
+                got.append(o[1][1] if o[0] == "V" and o[1][0] in ("BoolType", "bool") else diag.oclass(o).split("@")[0])
+            ok = got == [False, True, False, True]
+            acc.cell("hetero", kind, r, "mixed%d" % min(mixed, 2), "ok" if ok else "differ")
+            if not ok:
+                acc.violation(
+                    f"hetero:{r} {kind} definite-difference-with-{'one' if mixed == 1 else 'two-or-more'}-incomparable-position{'s' if mixed > 1 else ''} obs={'/'.join(str(g) for g in got)}",
+                    f"[hetero:{r}] a={short(a)} b={short(b)} differ definitely, yet [a == b, a != b, b == a, b != a] = {got}, expected [False, True, False, True]",
+                    {"a": MV.enc(a), "b": MV.enc(b), "path": "hetero:" + r, "law": "definite-difference"},
+                )
+
+
+def size_pairs(ck, ctx):
+    """Long lists, strings, byte strings and maps that are equal, differ at the first / the last position, or are a proper prefix of one another."""
+    rnd = ck.rnd
+    k = 0
+    for n in (17, 24, 25, 33, 65, 129, 257, 1025):
+        base_l = tuple(("int", i % 7) for i in range(n))
+        base_s = "".join(chr(0x61 + i % 26) for i in range(n))
+        base_m = tuple((("int", i), ("int", i % 5)) for i in range(n))
+        cases = [
+            (("list", "int"), ("list", base_l), ("list", base_l)), (("list", "int"), ("list", base_l), ("list", base_l[:-1])), (("list", "int"), ("list", base_l), ("list", base_l + (("int", 0),))),
+            (("list", "int"), ("list", base_l), ("list", base_l[:-1] + (("int", 99),))), (("list", "int"), ("list", base_l), ("list", (("int", 99),) + base_l[1:])),
+            (("list", "int"), ("list", base_l), ("list", base_l[: n // 2] + (("int", 99),) + base_l[n // 2 + 1 :])),
+            ("string", ("string", base_s), ("string", base_s)), ("string", ("string", base_s), ("string", base_s[:-1])), ("string", ("string", base_s), ("string", base_s[:-1] + "\U0001f431")),
+            ("string", ("string", base_s), ("string", "b" + base_s[1:])), ("bytes", ("bytes", base_s.encode()), ("bytes", base_s.encode()[:-1] + b"\xff")), ("bytes", ("bytes", base_s.encode()), ("bytes", base_s.encode())),
+            (("map", "int", "int"), ("map", base_m), ("map", tuple(reversed(base_m)))), (("map", "int", "int"), ("map", base_m), ("map", base_m[:-1])),
+            (("map", "int", "int"), ("map", base_m), ("map", base_m[:-1] + ((("int", n - 1), ("int", 77)),))), (("map", "int", "int"), ("map", base_m), ("map", base_m[:-1] + ((("int", n + 5), ("int", (n - 1) % 5)),))),
+            (("list", ("list", "int")), ("list", (("list", base_l),)), ("list", (("list", base_l[:-1]),))),
+        ]
+        for t, a, b in cases:
+            k += 1
+            if not ctx.mine(k):
+                continue
+            ck.acc.hook("size-pair")
+            ck.acc.nt(["size", n, k])
+            ck.direct_pair(a, b, t)
+            ck.engine_pair(a, b, t)
+            ck.engine_pair(b, a, t)
+    ck.acc.exhaustive.append("17 long-container shapes x sizes 17..1025")
+
+
 def install_counters(acc):
     ct = core.celpy().celtypes
 
@@ -385,6 +468,8 @@ def run(ctx):
     core.celpy()
     install_counters(acc)
     ck = Checker(acc, rnd)
+    size_pairs(ck, ctx)
+    hetero_pairs(ck, rnd, ctx.scale(4000, 160000))
     n = ctx.scale(9000, 400000)
     for j in range(n):
         if ctx.expired():
